@@ -408,3 +408,49 @@ def circ_pump_heat(ctx):
         gd.append(z3.Implies(p.cond(), K.eq_val(res.columns["deltat_k"].f(i), SP.sub(t_from, t_out))))
     ctx.ob("ensures/qext_w-is-enthalpy-difference", "ensures", req, z3.And(*gq))
     ctx.ob("ensures/deltat_k", "ensures", req, z3.And(*gd))
+
+
+# ---------------------------------------------------------------------------------------------
+# set-points reach the pit: every given (non-NaN) qext_w / controlled_mdot / treturn_k, of either sign
+
+def consumer_entries_obligations(ctx, which=("QEXT", "MDOTINIT", "TOUTINIT", "FLOW_RETURN_CONNECT")):
+    f, t = z3.Int("f_hc"), z3.Int("t_hc")
+    NB = z3.Int("NB")
+    cols = {"deltat_k": ("f", True), "treturn_k": ("f", True), "qext_w": ("f", True),
+            "controlled_mdot_kg_per_s": ("f", True)}
+
+    def mk():
+        net = K.NetObj({"heat_consumer": K.sym_table("heat_consumer", t - f, cols)})
+        return [HCC, net, K.sym_pit("branch_pit", NB, NCB, int_cols=INT_B)], {}
+
+    def c_super(ev, args, kwargs):
+        return PitSlice(args[2], f, t)
+    paths = T.run_paths(ctx, HC + ":HeatConsumer.create_pit_branch_entries", mk,
+                        contracts={BWO + ":BranchWOInternalsComponent.create_pit_branch_entries": c_super})
+    ok = len(paths) >= 1 and all(p.exc is None for p in paths)
+    ctx.decided("entries/returns", "cover", ok, witness=str([str(p.exc) for p in paths]))
+    if not ok:
+        return
+    tbl = K.sym_table("heat_consumer", t - f, cols)
+    bp0 = K.sym_pit("branch_pit", NB, NCB, int_cols=INT_B)
+    k = z3.Int("k")
+    i = k - f
+    req = [f >= 0, f <= t, t <= NB, k >= f, k < t]
+
+    def given_else_old(colname, pitcol):
+        v = tbl.columns[colname].f(i)
+        return lambda p: ite(nan_of(v), bp0.f(k, pitcol), val_of(v))
+    table = {"QEXT": ("qext_w", B_QEXT), "MDOTINIT": ("controlled_mdot_kg_per_s", B_MDOTINIT), "TOUTINIT": ("treturn_k", B_TOUTINIT)}
+    for nm in which:
+        if nm == "FLOW_RETURN_CONNECT":
+            ctx.ob("entries/every-consumer-separates-flow-and-return-side", "ensures", req,
+                   col_goal(paths, k, B_FLOW_RETURN_CONNECT, lambda p: 1))
+        else:
+            cn, pc = table[nm]
+            ctx.ob("entries/%s-is-the-given-%s-of-either-sign" % (nm, cn), "ensures", req, col_goal(paths, k, pc, given_else_old(cn, pc)))
+
+
+@unit("C11", "consumer_entries", functions=[HC + ":HeatConsumer.create_pit_branch_entries"], engine="E2")
+def consumer_entries(ctx):
+    ctx.assume("A1", "A4", "A6")
+    consumer_entries_obligations(ctx, ("QEXT", "MDOTINIT", "TOUTINIT"))
